@@ -286,10 +286,11 @@ def check(pid, tier):
         print("vx: property %s is not claimed (see MANIFEST.json not_applicable)" % pid)
         return 2
     seed = int(os.environ.get("VERIF_SEED", "0") or 0)
-    unit_dir = os.path.join(BUILD, "units", pid)
-    os.makedirs(os.path.join(ROOT, "evidence"), exist_ok=True)
-    os.makedirs(os.path.join(ROOT, "replays"), exist_ok=True)
-    for old in glob.glob(os.path.join(ROOT, "replays", pid + "-*.json")):
+    OUT = os.environ.get("VX_SCRATCH_OUT", ROOT)
+    unit_dir = os.path.join(BUILD, "units" if OUT == ROOT else "units-scratch", pid)
+    os.makedirs(os.path.join(OUT, "evidence"), exist_ok=True)
+    os.makedirs(os.path.join(OUT, "replays"), exist_ok=True)
+    for old in glob.glob(os.path.join(OUT, "replays", pid + "-*.json")):
         os.remove(old)
 
     violations = []   # dicts: {source, what, replay_payload, concrete}
@@ -323,7 +324,8 @@ def check(pid, tier):
 
     # ---------------- E3 (Kani)
     r3 = None
-    if spec.get("kani"):
+    e1_only = os.environ.get("VX_KILL_E1_ONLY") == "1"
+    if spec.get("kani") and not e1_only:
         r3 = e3.run(spec["kani"], tier, log)
         for h in r3["harnesses"]:
             if h["status"] == "FAILED":
@@ -334,7 +336,7 @@ def check(pid, tier):
 
     # ---------------- E2 (bounded contract replay)
     r2 = None
-    if spec.get("e2", True):
+    if spec.get("e2", True) and not e1_only:
         r2 = e2.run(pid, tier, seed, log)
         if r2["status"] != "ok":
             undecided.append("replay harness: " + r2.get("message", r2["status"]))
@@ -366,7 +368,7 @@ def check(pid, tier):
         lines.append("KNOWN-FINDING: property=%s %s [%s] e.g. %s" % (pid, hit["what"], hit["id"], fl.get("input", "")[:200]))
     for i, vv in enumerate(violations):
         n_viol += 1
-        path = os.path.join(ROOT, "replays", "%s-%d.json" % (pid, i + 1))
+        path = os.path.join(OUT, "replays", "%s-%d.json" % (pid, i + 1))
         payload = {"property": pid, "source": vv["source"], "failed_obligation": vv["what"], "detail": vv["obligation"],
                    "failing_input": vv["concrete"], "repo": REPO,
                    "how_to_replay": "./vx replay %s" % path}
@@ -376,7 +378,7 @@ def check(pid, tier):
         log("   violated: [%s] %s" % (vv["source"], vv["what"]))
 
     ev = build_evidence(pid, spec, tier, seed, r1, r2, r3, e1_fns, n_viol, undecided, known_hits, wall, unit_dir)
-    json.dump(ev, open(os.path.join(ROOT, "evidence", pid + ".json"), "w"), indent=1, default=str)
+    json.dump(ev, open(os.path.join(OUT, "evidence", pid + ".json"), "w"), indent=1, default=str)
 
     for ln in lines:
         print(ln)
@@ -455,6 +457,49 @@ def build_evidence(pid, spec, tier, seed, r1, r2, r3, e1_fns, n_viol, undecided,
     }
 
 
+def kill(only=None, e1_only=True):
+    """Kill suite: each stored source mutation is applied to a scratch copy of the repository sources
+    and must turn the check of its property red (E1 alone unless e1_only is False)."""
+    muts = json.load(open(os.path.join(ROOT, "kill", "mutants.json")))
+    scratch = "/var/tmp/vx-kill-%d" % os.getpid()
+    results = []
+    try:
+        for m in muts:
+            if only and m["id"] not in only and m["prop"] not in only:
+                continue
+            if os.path.isdir(scratch):
+                shutil.rmtree(scratch)
+            os.makedirs(scratch + "/entrait_macros")
+            shutil.copytree(os.path.join(REPO, "entrait_macros", "src"), scratch + "/entrait_macros/src")
+            p = os.path.join(scratch, "entrait_macros", "src", m["file"])
+            t = open(p).read()
+            reps = [(m["old"], m["new"])] + [(x["old"], x["new"]) for x in m.get("also", [])]
+            ok = True
+            for old, new in reps:
+                if t.count(old) != 1:
+                    ok = False
+                t = t.replace(old, new, 1)
+            t += m.get("extra", "")
+            if not ok:
+                results.append((m, "STALE (pattern not found exactly once)"))
+                continue
+            open(p, "w").write(t)
+            env = dict(os.environ, VX_REPO=scratch, VX_KILL_E1_ONLY="1" if e1_only else "0", VX_SCRATCH_OUT=scratch + "/out")
+            p2 = subprocess.run([os.path.join(ROOT, "vx"), "check", m["prop"]], env=env, stdout=subprocess.PIPE, stderr=subprocess.PIPE, text=True)
+            expect = m.get("expect", [1])
+            verdict = "killed" if p2.returncode in expect else ("SURVIVED (exit %d)" % p2.returncode)
+            results.append((m, verdict))
+            log("  %s %-4s %-28s %s  -- %s" % (m["id"], m["prop"], m["file"], verdict, m["why"]))
+    finally:
+        if os.path.isdir(scratch):
+            shutil.rmtree(scratch)
+    bad = [r for r in results if r[1] != "killed"]
+    json.dump([{"id": m["id"], "prop": m["prop"], "file": m["file"], "why": m["why"], "result": v} for m, v in results],
+              open(os.path.join(ROOT, "kill", "last_result.json"), "w"), indent=1)
+    print("kill suite: %d mutants, %d killed, %d not" % (len(results), len(results) - len(bad), len(bad)))
+    return 0 if not bad else 1
+
+
 def replay(path):
     d = json.load(open(path))
     print("replay of %s: property %s, source %s" % (path, d["property"], d["source"]))
@@ -479,6 +524,8 @@ def main(argv):
         return check(argv[1], tier)
     if cmd == "replay":
         return replay(argv[1])
+    if cmd == "kill":
+        return kill([a for a in argv[1:] if not a.startswith("--")] or None, e1_only="--full" not in argv)
     if cmd == "all":
         rc = 0
         os.environ["VX_CACHE"] = "1"
